@@ -604,7 +604,7 @@ package fzf
 // item is valid for exactly one pattern revision - major and minor, change-nth bumps only the minor one - so what
 // is returned is either the memo made for this very revision or a fresh tokenisation, which becomes the memo.
 //@ func Pattern.transformInput region#2 @"<body>"
-//@ property C10
+//@ property C10 C05
 //@ requires p != nil && item != nil && len(p.nth) < 1073741824 && clen(&item.text) < 536870912
 //@ requires forall(k, 0, len(p.nth), -1073741824 < p.nth[k].begin && p.nth[k].begin < 1073741824 && -1073741824 < p.nth[k].end && p.nth[k].end < 1073741824)
 //@ modifies item.transformed
